@@ -33,6 +33,7 @@ class Ctx:
             H = self.m.new_space("H")
             H.new_cells("other", formula="lambda a: a * 3")
             self.m.other = H.other
+            self.m.twice = G.twice
         self.count += 1
         return self.m.new_space("S%d" % self.count)
 
@@ -325,7 +326,7 @@ QUICK = {
     "params": ["x", "x,y=2", "annotated"],
     "doc": ["none", "single", "triple-multiline", "triple-squote-ends-dquote"],
     "comments": ["none", "leading", "trailing", "all"],
-    "body": ["simple", "multi", "nested-def", "nested-class", "comprehension", "multiline-expr", "oneline", "if-else"],
+    "body": ["simple", "multi", "nested-def", "nested-def-decorated", "nested-class", "nested-class-staticmethod", "comprehension", "multiline-expr", "oneline", "if-else"],
     "deco": ["none", "one", "two"],
     "indent": ["0", "4", "8"],
     "name": ["same", "longer"],
